@@ -140,7 +140,16 @@ def handleShard (f : List String) : String × String × String :=
       let j2 := if coreEq d rp && sortStr A != sortStr D then ["determinism"] else []
       let j3 := if sizeLe s s2 && !subset A B then ["mono"] else []
       let zc := (zonesIn d).length != (zonesIn d').length
-      let changed := (sdiff C A).length > 1 || (sdiff A C).length > 1
+      -- one change, exactly as `shard_remove_one` / `shard_add_one` / `shard_set_readonly_one` state it:
+      -- x leaves the eligible instances ("out"): nobody but x leaves, at most one enters, nothing changes if x was no member;
+      -- x joins them ("in"): the same read from the other side; no operation: the same answer.
+      let outRule := fun (x : String) (old new : List String) =>
+        !(subset (sdiff old new) [x]) || (sdiff new old).length > 1 || (!old.contains x && sortStr old != sortStr new)
+      let changed : Bool := match op with
+        | .none => sortStr A != sortStr C
+        | .rm x => outRule x A C
+        | .add i => outRule i.id C A
+        | .ro x f _ => if f then outRule x A C else outRule x C A
       let j4 :=
         if tokless || !changed then []
         else match op with
@@ -195,6 +204,8 @@ def handleHist (f : List String) : String × String × String :=
       let ts := sn.map (·.1)
       let ds := sn.map (·.2.2)
       let zcount := ds.map fun d => (zonesIn d).length
+      let zsets := ds.map fun d => sortStr (zonesIn d)
+      let szs := sn.map (·.2.1)
       let tokless := ds.any hasTokenless
       let ks := List.range sn.length
       let bad := ks.flatMap fun k =>
@@ -202,9 +213,11 @@ def handleHist (f : List String) : String × String × String :=
         let Lk := L[k]?.getD []
         (windowIdx ts k period).filterMap fun j =>
           let Aj := (A[j]?.getD []).filter ids.contains
-          if subset Aj Lk then none
+          -- only shards of a size not larger than the look-back size are promised to be covered
+          if !(sizeLe (szs[j]?.getD 0) s) then none
+          else if subset Aj Lk then none
           else
-            let zchg := (List.range (k + 1)).any fun m => decide (j ≤ m) && zcount[m]? != zcount[k]?
+            let zchg := (List.range (k + 1)).any fun m => decide (j ≤ m) && zsets[m]? != zsets[k]?
             some (if za && zchg then "lookback_window_zonecount" else "lookback_window")
       let bad := if tokless then [] else bad
       let ext := ks.any fun k => (L[k]?.getD []).length > (A[k]?.getD []).length
@@ -290,7 +303,14 @@ def handlePShard (f : List String) : String × String × String :=
       let A := parseInts oA; let B := parseInts oB; let C := parseInts oC; let E := parseInts oE
       let j1 := checkPPlain ps s A "" ++ checkPPlain ps s2 B "_s2" ++ checkPPlain ps' s C "_r2"
       let j3 := if sizeLe s s2 && !isubset A B then ["p_mono"] else []
-      let j4 := if (idiff C A).length > 1 || (idiff A C).length > 1 then ["p_one_change"] else []
+      let poutRule := fun (x : Int) (old new : List Int) =>
+        !(isubset (idiff old new) [x]) || (idiff new old).length > 1 || (!old.contains x && sortInt old != sortInt new)
+      let pchanged : Bool := match op with
+        | .none => sortInt A != sortInt C
+        | .rm x => poutRule x A C
+        | .add p => poutRule p.id C A
+        | .st x st' _ => if st' == .active then poutRule x C A else poutRule x A C
+      let j4 := if pchanged then ["p_one_change"] else []
       let j5 := (if isubset A E then [] else ["p_lookback_superset"]) ++
                 (if isubset E (ps.map (·.id)) && E.all (fun m => (ps.find? (·.id == m)).all fun p => p.state != .pending) then [] else ["p_lookback_members"])
       let n := ps.length
@@ -326,7 +346,8 @@ def handlePHist (f : List String) : String × String × String :=
         let Lk := L[k]?.getD []
         (windowIdx ts k period).filterMap fun j =>
           let Aj := (A[j]?.getD []).filter ids.contains
-          if isubset Aj Lk then none else some "p_lookback_window"
+          if !(sizeLe ((sn.map (·.2.1))[j]?.getD 0) s) then none
+          else if isubset Aj Lk then none else some "p_lookback_window"
       let ext := ks.any fun k => (L[k]?.getD []).length > (A[k]?.getD []).length
       let tags := s!"k=phist steps={bucket sn.length} lbext={if ext then 1 else 0} triv=0"
       (diff, reasons bad, tags)
